@@ -348,6 +348,9 @@ def ast_depth(seq):
     return d
 
 
+FNAME_CHARS = string.ascii_letters + "_" + "²¹⁰₀₁₈½¼¾⅛É9+"
+
+
 def validate(seq, _depth=0):
     """Raises AssertionError/ValueError/... unless seq is a well-formed AST
     (used by replay on shrunk cases)."""
@@ -397,13 +400,13 @@ def validate(seq, _depth=0):
             assert len(n) == 2
             validate(n[1], _depth + 1)
         elif k == "def":
-            assert len(n) == 4 and isinstance(n[1], str) and n[1] and all(c in string.ascii_letters + "_" for c in n[1])
+            assert len(n) == 4 and isinstance(n[1], str) and n[1] and all(c in FNAME_CHARS for c in n[1]) and any(c in string.ascii_letters for c in n[1])
             assert isinstance(n[2], list)
             for p in n[2]:
                 assert isinstance(p, str) and p and (p == "*" or p.isdecimal() or all((c.isalnum() or c == "_") and c in CP for c in p))
             validate(n[3], _depth + 1)
         elif k == "call":
-            assert len(n) == 2 and isinstance(n[1], str) and n[1] and all(c in string.ascii_letters + "_" for c in n[1])
+            assert len(n) == 2 and isinstance(n[1], str) and n[1] and all(c in FNAME_CHARS for c in n[1]) and any(c in string.ascii_letters for c in n[1])
         elif k == "mod":
             assert len(n) == 3 and n[1] in MOD_ARITY and isinstance(n[2], list) and len(n[2]) == MOD_ARITY[n[1]]
             for o in n[2]:
